@@ -1197,6 +1197,9 @@ func newOfficialRoaringIterator(data []byte) (*officialRoaringIterator, error) {
 		// start out pointed at where the offsets would have been.
 		r.currentDataOffset = uint32(offsetOffset)
 	} else {
+		if offsetOffset+int(r.keys*4) > len(data) {
+			return nil, fmt.Errorf("malformed bitmap, offset header overruns buffer at %d", offsetOffset+int(r.keys*4))
+		}
 		r.offsets = data[offsetOffset : offsetOffset+int(r.keys*4)]
 	}
 	// set key to -1; user should call Next first.
@@ -4605,6 +4608,10 @@ func (op *op) UnmarshalBinary(data []byte) error {
 		}
 		op.value = 0
 	case opTypeAddRoaring, opTypeRemoveRoaring:
+		// As above: 13+4+op.value must not wrap around.
+		if op.value > maxBatchSize {
+			return fmt.Errorf("maximum operation size exceeded")
+		}
 		if len(data) < int(13+4+op.value) {
 			return fmt.Errorf("op data truncated - expected %d, got %d", 13+op.value, len(data))
 		}
